@@ -217,7 +217,7 @@ def run(tier, seed):
     add("action ignoring SIGHUP, SIGINT", e2e_play(scene_x="stub", extra_actions="  :stub trap '' HUP; sleep 20"), 10, 2, sig=(1.0, signal.SIGINT), expect_fail=True)
     # "at any moment" includes a play that has been running for more than a minute: the one-minute hard limit of the
     # shutdown counts from the signal, not from the start of the play (the play is put first: it is the longest)
-    add("SIGTERM after 63 s of play, action ignoring SIGHUP", e2e_play(scene_x="stub63", extra_actions="  :stub63 trap '' HUP; sleep 200"), 63 + 9, 2, sig=(63.0, signal.SIGTERM))
+    add("SIGTERM after 63 s of play, action ignoring SIGHUP", e2e_play(scene_x="stub63", extra_actions="  :stub63 trap '' HUP; sleep 200"), 63 + 15, 2, sig=(63.0, signal.SIGTERM))
     faults.insert(0, faults.pop())
     add("a completed action left a process in the background", e2e_play(scene_x="bg", extra_actions="  :bg (setsid sleep 7 >/dev/null 2>&1 &) ; true"), 8, 2, expect_fail=False, allow_left=True, body_err=False)
     add("SIGINT while the conductor is between shutdown stages", e2e_play(scene_x="quick"), 8, 2, sig=(0.45, signal.SIGINT), points="conduct.stage2=sleep:600ms")
